@@ -59,8 +59,12 @@ type World struct {
 	// sorted order) which moves at every flush, so that L0 tables cover different, partly
 	// overlapping key ranges (the compaction pickers reason about ranges).
 	Locality int
-	winLo    int
-	sorted   [][]byte
+	// Pivot (with Locality): every window starts or ends at one fixed key, so that this key is again
+	// and again the biggest key of one table and the smallest of another, on the same or on adjacent
+	// levels (the pickers compare table boundaries, which carry versions).
+	Pivot  bool
+	winLo  int
+	sorted [][]byte
 }
 
 // Open opens a DB for the driver (no background compactors).
@@ -249,6 +253,15 @@ func (w *World) Flush() bool {
 			w.Locality = 2 + w.R.Intn(len(w.Keys))
 		} else {
 			w.Locality = 2 + w.R.Intn(4)
+		}
+		if w.Pivot {
+			p := len(w.Keys) / 2
+			w.Locality = 2 + w.R.Intn(5)
+			if w.R.Intn(2) == 0 {
+				w.winLo = p // the pivot is the smallest key of the next table
+			} else {
+				w.winLo = (p - w.Locality + 1 + len(w.Keys)) % len(w.Keys) // ... or its biggest
+			}
 		}
 	}
 	return ok
